@@ -36,6 +36,11 @@ def main(tier="quick", seed=0):
             expect.add(tr["id"])
     v, _ = layout.validate(bad)
     report("TraceLayout (reader) rejects a corrupted library answer", all(any(c[0] == "C06.reader" for c in v[i]) for i in expect))
+    bad = copy.deepcopy(traces)
+    for tr in bad:
+        tr["ev"][-1]["bytes"] = tr["ev"][-1]["bytes"][:-3]       # a truncated file: the trace spec must give a verdict, not stop with an evaluation error
+    v, _ = layout.validate(bad)
+    report("TraceLayout is total: a truncated export is rejected by verdict (no TLC evaluation error)", all(v[tr["id"]] for tr in bad))
     # 2. HashMemo
     from .engines import hashes
 
